@@ -121,6 +121,14 @@ def scenarios(ctx):
     out.append(Std('pub-reenter-connected', profile='pub', mode='sync', init=CONNECTED_P, connects=[(False, 0, 4)],
                    reconnects=[(False, 0, 4)], windows=(1, 2), pub_qos=(0, 1, 2), reenter=('ok:connect@1>pub1',),
                    budgets=dict(pub=3, ack=2, lose=1, rebuild=1, connect=1, connack=1, setwin=1)))
+    # disconnect() with messages of a persistent session still held back, then the session is resumed
+    for mode in ('sync', 'async'):
+        out.append(Std('pub-persist-disconnect-%s' % mode, profile='pub', mode=mode, init=CONNECTED_P, connects=[(False, 0, 4)],
+                       reconnects=[(False, 0, 4)], pub_qos=(0, 1), windows=(1, 2),
+                       budgets=dict(pub=3, ack=1 if q else 2, disconnect=1, lose=1, rebuild=1, connect=1, connack=1)))
+    # the application's success callbacks return Deferreds that have not fired yet
+    out.append(Std('pub-callback-returns-deferred', profile='pub', mode='sync', init=CONNECTED, windows=(1, 2), pub_qos=(0, 1, 2),
+                   cb_deferred=True, budgets=dict(pub=3, ack=3, setwin=1, tick=1)))
     out.append(Std('pub-wrap', profile='pub', mode='sync', init=CONNECTED + (('setwin', 0, 2),), pub_qos=(0, 1, 2),
                    budgets=dict(pub=4, ack=1, setid=1)))
     out.append(Std('pubsub-persist-w3', profile='pubsub', mode='sync', init=CONNECTED_P + (('setwin', 0, 3),),
